@@ -229,6 +229,31 @@ def rule_a(ctx):
     ctx.ob("pop|borrow-carries-slot-and-next-stamp", okb,
            "the borrow handed out by pop records the popped slot's index and, as the stamp to publish on release, the loaded stamp + right_mask "
            "(i.e. position + capacity-lap - 1: free for the next lap)", bsites)
+    # ---- the closed flag: set by close() with closed_channel_mask on enqueue_pos, read by is_closed() with the same mask
+    for nm in ("is_closed", "close"):
+        qb = ctx.body(Q + nm)
+        if qb is None:
+            continue
+        if nm == "close":
+            fo = [x for x in qb.calls("^std::sync::atomic::Atomic::fetch_or$") if atomics.receiver_field(qb, x) == "enqueue_pos"]
+            okf = len(fo) == 1 and all(origin_proj_names(o)[1][-1:] == [("f", "closed_channel_mask")] for o in qb.origins(fo[0].args()[1], fo[0]))
+            ctx.ob("close|sets-closed-flag", okf and bool(qb.origins(fo[0].args()[1], fo[0])) if fo else False,
+                   "close() ORs closed_channel_mask into the enqueue position", fo or [qb.name])
+        else:
+            rets = [r for r in K.ret_assigns(qb) if not r.is_term]
+            okr = len(rets) == 1 and rets[0].node["r"]["r"] == "bin" and rets[0].node["r"]["op"] == "Ne" and rets[0].node["r"]["b"].get("v") == 0
+            if okr:
+                ao = qb.origins(rets[0].node["r"]["a"], rets[0])
+                okr = len(ao) == 1
+                o = next(iter(ao)) if okr else None
+                okr = okr and o[0] == "bin" and o[1] == "BitAnd"
+                if okr:
+                    sides = (o[2], o[3])
+                    ld = [x for x in sides if isinstance(x, tuple) and x[0] == "call" and x[2].endswith("Atomic::load") and
+                          atomics.receiver_field(qb, Site(qb, x[1], TERM)) == "enqueue_pos"]
+                    mk = [x for x in sides if origin_proj_names(x)[1][-1:] == [("f", "closed_channel_mask")]]
+                    okr = len(ld) == 1 and len(mk) == 1
+            ctx.ob("is-closed|tests-closed-flag", okr, "is_closed() is (enqueue_pos & closed_channel_mask) != 0", rets or [qb.name])
     # ---- MessageBorrow::drop releases the slot with the stamp computed by pop
     db = ctx.body("<channel::queue::MessageBorrow as std::ops::Drop>::drop")
     if db:
